@@ -620,6 +620,10 @@ def normalize_merchant(
             if _is_expression_pattern(pattern):
                 # Use expression parser for expression-based rules
                 matches = expr_parser.matches_transaction(pattern, transaction, data_sources=data_sources)
+                # A CSV pattern that is an expression can carry [amount...] / [date...]
+                # modifiers like any other CSV pattern
+                if matches and parsed and (parsed.amount_conditions or parsed.date_conditions):
+                    matches = check_all_conditions(parsed, amount, txn_date)
             else:
                 # Legacy regex pattern matching
                 if re.search(pattern, desc_upper, re.IGNORECASE):
@@ -853,6 +857,11 @@ def explain_description(
 
                 if not matches:
                     continue
+
+                # Modifiers of an expression pattern (see normalize_merchant)
+                if parsed and (parsed.amount_conditions or parsed.date_conditions):
+                    if not check_all_conditions(parsed, amount, txn_date):
+                        continue
             else:
                 # Legacy regex pattern matching
                 if not re.search(pattern, desc_upper, re.IGNORECASE):
